@@ -38,6 +38,34 @@ def _writes(sx, effects, out, loop_ctx=()):
     return out
 
 
+def r1b_writes_unconditional(ctx, chk, rule="C11.1"):
+    """write_robots writes the three games on every call: a condition on the writes that looks at the file system (or at an
+    `overwrite`-style switch) means that the file of that name can hold the games of another board, or nothing."""
+    f = ctx.func("roberta_generator.py::write_robots")
+    sx = SymX(ctx, f, inline_depth=3, no_inline=("player_two_transitions",)).run()
+    ws = _writes(sx, sx.final.effects, [])
+    conds = []
+    for loops, cond, t in ws:
+        if cond != TRUE and cond not in conds:
+            conds.append(cond)
+    if not ws:
+        chk.undecided(rule, f.where(), "no write() reconstructed from write_robots")
+        return
+    if not conds:
+        chk.ok(rule, f.where(), "all %d writes of write_robots are unconditional: every call (re)writes the whole file" % len(ws))
+        return
+    for c in conds:
+        fs = [t for t in C02._sub(c) if (t[0] == "call" and (t[1] == "open" or t[1].startswith("os.path.") or t[1].startswith("os."))) or t[0] == "raised"
+              or (t[0] == "mcall" and t[2] in ("exists", "is_file", "isfile", "stat"))]
+        switches = [t for t in C02._sub(c) if t[0] == "v" and t[1] in f.params and t[1] not in f.params[:9]]
+        if fs or switches:
+            chk.violation(rule, f.where(), "the games are written only if `%s`: when a file of that name is already there (or the switch is off) nothing is written, so the file can "
+                          "hold the games of another board with the same name - the name does not determine the content" % show(c)[:160],
+                          expected="every call writes the three games of the board it was given", found=show(c)[:160], construct="write_robots conditional writes")
+        else:
+            chk.undecided(rule, f.where(), "a write is conditional: %s" % show(c)[:160])
+
+
 def r1_template(ctx, chk, rule="C11.1"):
     f = ctx.func("roberta_generator.py::write_robots")
     sx = SymX(ctx, f, inline_depth=3, no_inline=("player_two_transitions",)).run()
@@ -548,6 +576,7 @@ def r6_writer_reader_agreement(ctx, chk, rule="C11.6"):
 
 
 def run(ctx, chk):
+    r1b_writes_unconditional(ctx, chk)
     r5_manual_entry(ctx, chk)
     r6_writer_reader_agreement(ctx, chk)
     gts = r1_template(ctx, chk)
